@@ -14,3 +14,12 @@ PROPS = {
         "assumptions": COMMON_ASSUME,
     },
 }
+
+# per-property plug-in files: tools/props.d/Cxx.json
+import glob as _glob
+import json as _json
+import os as _os
+for _f in sorted(_glob.glob(_os.path.join(_os.path.dirname(_os.path.abspath(__file__)), "props.d", "*.json"))):
+    _c = _json.load(open(_f))
+    _c.setdefault("assumptions", COMMON_ASSUME)
+    PROPS[_os.path.basename(_f)[:-5]] = _c
